@@ -67,7 +67,10 @@ class ShardResult:
             if h not in self.nontrivial:
                 self.nontrivial.add(h)
                 if len(self.samples) < max_samples:
-                    self.samples.append(enc(ch.draws))
+                    sample = {"draws": enc(ch.draws)}
+                    if getattr(ch, "notes", None):
+                        sample["meaning"] = list(ch.notes)
+                    self.samples.append(sample)
 
     def note_failure(self, ch, sig, msg):
         size = len(dumps(ch.draws))
@@ -442,8 +445,8 @@ def main(argv=None):
     exhaustive_subspaces = []
     for name, d in per_law.items():
         for s in d["samples"]:
-            if len(samples) < 6 and len(json.dumps(s)) < 6000:
-                samples.append({"law": name, "draws": s})
+            if len(samples) < 6 and len(json.dumps(s)) < 8000:
+                samples.append(dict({"law": name}, **s))
         laws_ev[name] = {
             "evaluations": d["evaluations"],
             "distinct_nontrivial": len(d["distinct_nontrivial"]),
